@@ -214,6 +214,7 @@ class _Ctx:
         self.open = []
         self.side = []
         self.raises = []          # (guard, exception name)
+        self.lemmas = []          # consequences of assumptions + pc established by the solver
         self.timeout_ms = timeout_ms
         self.s = z3.SolverFor("QF_BV")
         self.s.set("timeout", min(timeout_ms, 3000))
@@ -232,6 +233,7 @@ class _Ctx:
             s.set("timeout", self.timeout_ms)
             s.add(*self.assumptions)
             s.add(*self.pc)
+            s.add(*self.lemmas)
             s.add(cond)
             r = s.check()
             self.nq += 1
@@ -242,6 +244,10 @@ class _Ctx:
         self.pc.append(cond)
         self.s.add(cond)
 
+    def lemma(self, cond):
+        self.lemmas.append(cond)
+        self.s.add(cond)
+
 
 class Path:
     def __init__(self, ctx, result, dead):
@@ -249,6 +255,7 @@ class Path:
         self.pc = ctx.pc
         self.side = ctx.side
         self.raises = ctx.raises
+        self.lemmas = ctx.lemmas
         self.result = result
         self.dead = dead          # True: the whole path ended in a raise
         self.prefix = list(ctx.prefix[:ctx.pos])
@@ -605,6 +612,10 @@ class Interp:
         r = self.ctx.check(cond)
         if r == z3.unknown:
             raise Inconclusive("feasibility of a loop/raise guard undecided within the decision timeout")
+        if r == z3.unsat:
+            # a fact the solver derived from assumptions + pc: keep it as a lemma (redundant, hence sound);
+            # later loops build on it (e.g. "the previous reduction loop has terminated")
+            self.ctx.lemma(z3.Not(cond))
         return r == z3.sat
 
     def truth(self, v):
